@@ -469,6 +469,15 @@ func (fr *frame) visit(instr ssa.Instruction) continuation {
 		lt := fr.get(instr.Len).(*Term)
 		ct := fr.get(instr.Cap).(*Term)
 		p.obligation(Cmp(OSle, BV(64, 0), lt), "makeslice", "makeslice@"+fr.fn.String(), "negative make size", fr, instr.Pos())
+		// allocation accounting (bytes requested through make with a non-constant size), read by vAllocated
+		if !lt.IsConst() || !ct.IsConst() {
+			esz := uint64(p.ex.sizes.Sizeof(instr.Type().Underlying().(*types.Slice).Elem()))
+			big := lt
+			if p.allocTerm == nil {
+				p.allocTerm = BV(64, 0)
+			}
+			p.allocTerm = Bin(OAdd, p.allocTerm, Bin(OMul, big, BV(64, esz)))
+		}
 		lt = p.sizeClass(lt)
 		n := int64(p.concretize(lt, "make len"))
 		if ct != lt {
@@ -732,11 +741,9 @@ func (p *Path) sizeClass(t *Term) *Term {
 			return BV(t.W, v)
 		}
 	}
+	// every larger size is represented by a 4096-element allocation; the size itself stays symbolic in the
+	// path condition (so that allocation accounting and later comparisons still range over all large values)
 	rep := BV(t.W, 4096)
-	if ok, _ := p.feasible(Cmp(OEq, t, rep)); ok {
-		p.assume(Cmp(OEq, t, rep))
-		p.note("bound: symbolic allocation sizes are explored as 0,1,2,3,4 and one representative (4096) for every larger size")
-		return rep
-	}
-	return t
+	p.note("bound: symbolic allocation sizes are explored as 0,1,2,3,4 and one representative (4096 elements) for every larger size")
+	return rep
 }
